@@ -143,3 +143,53 @@ def finite(x):
     except Exception:  # noqa
         return False
     return not (math.isnan(x) or math.isinf(x))
+
+
+# ---- Monte Carlo propagation with injected offsets ------------------------------------------------------------------
+DEFAULT_OFFSETS = [-1.5, 0.25, 1.5, -0.25]
+
+
+class fixed_offsets:
+    """while active, np.random.normal(0, 1, size) returns the given offsets (repeated / truncated to size)"""
+
+    def __init__(self, offsets):
+        self.offsets = [float(o) for o in offsets]
+
+    def __enter__(self):
+        import numpy as np
+        self.orig = np.random.normal
+        offs = np.array(self.offsets)
+        np.random.normal = lambda loc=0.0, scale=1.0, size=None: np.resize(offs, size)
+        return self
+
+    def __exit__(self, *a):
+        import numpy as np
+        np.random.normal = self.orig
+
+
+def mc_propagate(d, sample_size):
+    """evaluate the calculated quantity d with the Monte Carlo method -> (value, error, samples)"""
+    with warnings.catch_warnings():
+        warnings.simplefilter("ignore")
+        d.error_method = "monte-carlo"
+        d.mc.sample_size = sample_size
+        value, error = d.value, d.error
+        samples = [float(x) for x in d.mc.samples()]
+    return float(value), float(error), samples
+
+
+def mc_injected(a, k, c, offsets):
+    """samples of k*a+c (all offsets) and of a*a (first two offsets) with the offsets injected"""
+    with fixed_offsets(offsets):
+        _, _, lin = mc_propagate(k * a + c, len(offsets))
+        _, _, sq = mc_propagate(a * a, min(2, len(offsets)))
+    return lin, sq
+
+
+def gen_offsets(rng):
+    """two dyadic offsets and their negatives (mean exactly 0), shuffled"""
+    o1 = dyadic(rng, 5, 4, positive=True, nonzero=True)
+    o2 = dyadic(rng, 5, 4, positive=True, nonzero=True)
+    offs = [o1, -o1, o2, -o2]
+    rng.shuffle(offs)
+    return offs
